@@ -113,6 +113,56 @@ def rule_units(ctx, f):
                           "bytes before %%PDF- cannot be reloaded after save" % sorted(tags), b["blocks"][i]["term"]["span"],
                           detail="pos = backend.len() - start_offset")
         ctx.floor("C09-UNITS", n, 2, "XRef::Raw constructions in save (changed objects, xref stream)")
+        # the position is taken where the object begins: the first thing written to the backend after the length was read is the
+        # `N G obj` header of that object
+        import adj as _adj
+        import re as _re
+        a_ = _adj.get_adj(f, _adj.OBJECT_KEYWORDS)
+        fn_ = a_.ast.fn_for_body(b)
+        fmts = {}
+        if fn_ is not None:
+            def _walk(x):
+                if isinstance(x, dict):
+                    yield x
+                    for v in x.values():
+                        yield from _walk(v)
+                elif isinstance(x, list):
+                    for y in x:
+                        yield from _walk(y)
+            for nd in _walk(fn_["body"]):
+                if nd.get("k") == "macro" and nd.get("fmt") is not None and nd.get("line") is not None:
+                    fmts[(nd["line"], nd.get("col"))] = nd["fmt"]
+        writes = {}
+        for bi, t in F.calls(b):
+            if any(ty["k"] == "refmut" and ty["s"] == "&mut std::vec::Vec<u8>" for ty in t["arg_tys"]) and last_seg(F.callee_name(t)) in ("write_fmt", "serialize", "write_all", "extend_from_slice", "write", "push"):
+                m2 = _re.search(r":(\d+):(\d+)$", t["span"])
+                writes[bi] = fmts.get((int(m2.group(1)), int(m2.group(2)))) if m2 else None
+        k2 = 0
+        for i, j, st in F.stmts(b):
+            if st[0] == "assign" and st[2][0] == "aggregate" and st[2][1].get("adt") == "xref::XRef" and st[2][1]["variant"] == "Raw":
+                op = st[2][2][st[2][1]["fields"].index("pos")]
+                l = F.op_local(op)
+                lens = [a0[2] for a0 in fl.origins(l) if a0[0] == "call" and last_seg(a0[1]) == "len" and "Vec" in a0[1]] if l is not None else []
+                for L in lens:
+                    k2 += 1
+                    # first writes reachable from L
+                    first = set()
+                    seen = set()
+                    stack = list(cfg.succ[L])
+                    while stack:
+                        x = stack.pop()
+                        if x in seen:
+                            continue
+                        seen.add(x)
+                        if x in writes:
+                            first.add(x)
+                            continue
+                        stack.extend(cfg.succ[x])
+                    okh = bool(first) and all(writes[x] is not None and _re.match(r"^\{\} \{\} obj", writes[x]) for x in first)
+                    ctx.check(okh, "C09-UNITS", b["id"] + "#Raw.pos-at-header-%d" % k2, "the position stored for an object is not read right before its `N G obj` header is "
+                              "written (next output after the read: %s): the cross-reference entry points into the object instead of at its start" %
+                              sorted(str(writes[x]) for x in first), b["blocks"][L]["term"]["span"], detail="pos = len(); then `N G obj`")
+        ctx.floor("C09-UNITS", k2, 2, "reads of the backend length that become object positions")
         # startxref operand: usize values formatted into the backend
         m = 0
         for bi, t in F.calls(b):
@@ -228,6 +278,34 @@ def rule_reserve(ctx, f):
     ctx.floor("C09-ORDER", n, 2, "Storage methods that allocate an object number (create, promise)")
 
 
+def rule_last_write(ctx, f):
+    ctx.rule("C09-G4", "update stores the new value whether or not the object already has a pending one: the vacant case inserts, the occupied case "
+             "overwrites (or merges into) the stored value; no or_insert-style call that keeps the old value")
+    bs = [b for b in f.bodies.values() if (b.get("impl") or {}).get("trait") == "object::Updater" and b["id"].endswith("::update")
+          and (b.get("impl") or {}).get("self", "").startswith("file::Storage<")]
+    if not ctx.floor("C09-G4", len(bs), 1, "<Storage as Updater>::update"):
+        return
+    for b in bs:
+        fl = Flow(b)
+        names = [last_seg(F.callee_name(t)) for bi, t in F.calls(b)]
+        keep = [n for n in names if n in ("or_insert", "or_insert_with", "or_default", "or_insert_with_key", "try_insert")]
+        ins = [bi for bi, t in F.calls(b) if last_seg(F.callee_name(t)) == "insert" and ("VacantEntry" in F.callee_name(t) or "HashMap" in F.callee_name(t) or "OccupiedEntry" in F.callee_name(t))]
+        gm = [(bi, t) for bi, t in F.calls(b) if last_seg(F.callee_name(t)) in ("get_mut", "into_mut") and "OccupiedEntry" in F.callee_name(t)]
+        over = False
+        for bi, t in gm:
+            d = t["dest"][0]
+            for i, j, st in F.stmts(b):
+                if st[0] == "assign" and len(st[1]) > 1 and st[1][1][0] == "deref":
+                    if any(a[0] == "call" and a[2] == bi for a in fl.origins(st[1][0])):
+                        over = True
+        plain_insert = any("HashMap" in F.callee_name(t) and last_seg(F.callee_name(t)) == "insert" for bi, t in F.calls(b))
+        occ_insert = any("OccupiedEntry" in F.callee_name(t) and last_seg(F.callee_name(t)) == "insert" for bi, t in F.calls(b))
+        ok = not keep and bool(ins) and (over or plain_insert or occ_insert)
+        ctx.check(ok, "C09-G4", b["id"] + "#overwrites", "a second update of the same object does not replace the pending value (%s): reads before save and the saved file "
+                  "show the first value written, not the last" % (("uses " + ", ".join(keep)) if keep else "no store on the occupied entry"), b["span"],
+                  detail="Vacant => insert, Occupied => *old = new")
+
+
 def run(ctx):
     f = F.load("default")
     ctx.count("bodies", len(f.bodies))
@@ -237,6 +315,7 @@ def run(ctx):
     rule_pair2(ctx, f)
     rule_reserve(ctx, f)
     rule_identity(ctx, f)
+    rule_last_write(ctx, f)
     rule_append(ctx, f)
     adj.rule_framing(ctx, f, "C09")
     return ctx.finish(
